@@ -125,10 +125,14 @@ def parseContent (s : String) : Option DContent :=
     | _ => none
   | _ => none
 
+/-- payee `x` / `y`: claimed peer-id bytes that do not decode -/
+def parsePayee (p : String) : Option Nat :=
+  if p = "x" then some 999 else if p = "y" then some 998 else p.toNat?
+
 def parseQuote (q : String) : Option QuoteD :=
   match q.splitOn "." with
   | [p, s, sg, t, c, v, a] => do
-    pure ⟨← p.toNat?, ← s.toNat?, sg == "1", t == "f" || t == "b", c == "1", v == "1", ← a.toNat?⟩
+    pure ⟨← parsePayee p, ← s.toNat?, sg == "1", t == "f" || t == "b", c == "1", v == "1", ← a.toNat?⟩
   | _ => none
 
 def parsePay (s : String) : Option (Option PayD) :=
@@ -195,6 +199,20 @@ def step (w : World) (ws : List String) : World × String :=
     | _ => (w, "bad-op")
   | ["run", id] => actLine w none (.run (idOf id)) (idOf id)
   | ["dump"] => (w, "store " ++ storeStr w.store)
+  | ["close", r, ps] =>
+    -- routing-table peers in order of increasing distance; a new chunk paid to this node (twice) and to the
+    -- peer at rank `r`, validated against the close set the driver serves
+    match r.toNat?, (if ps = "-" then some [] else parseNats ps) with
+    | some r, some ps =>
+      match ps[r]? with
+      | some p =>
+        let set := closeSet ps
+        let pay : PayD := ⟨[⟨0, 0, true, true, true, true, 5⟩, ⟨p, p, true, true, true, true, 2⟩,
+          ⟨0, 0, true, true, true, true, 3⟩], set⟩
+        let (_, line) := deliverLine ⟨[], []⟩ ⟨true, .chunkp, 0, .chunk 0, some pay⟩
+        (w, s!"set={dots set} " ++ line)
+      | none => (w, "bad-op")
+    | _, _ => (w, "bad-op")
   | ["sput", mx, len, h, held] =>
     match mx.toNat?, len.toNat?, heldOf held with
     | some mx, some len, some held =>
